@@ -192,6 +192,8 @@ pub struct TrackMem {
     fence: u8,
     /// `expand` grows by exactly the requested amount (still "at least additional"): no slack for code that assumes doubling
     tight: bool,
+    /// `expand` hands out 3 elements MORE than requested and never doubles (legal: "at least additional")
+    pub greedy: bool,
 }
 // markers only matter for C15-style questions; the harness is single threaded per model
 unsafe impl Send for TrackMem {}
@@ -210,7 +212,7 @@ impl TrackMem {
                 Some(b) => { let p = b.payload; ts.live.push((serial, b)); p }
                 None => layout.align() as *mut u8,
             };
-            TrackMem { ptr, cap, layout, serial, fixed, tight, fence }
+            TrackMem { ptr, cap, layout, serial, fixed, tight, fence, greedy: false }
         })
     }
     fn relocate(&mut self, new_cap: usize) {
@@ -244,7 +246,7 @@ impl Mem for TrackMem {
         }
         let old = self.cap;
         let requested = old.checked_add(additional).expect("Track: capacity overflow");
-        let new = if self.tight { requested } else { std::cmp::max(old.saturating_mul(2), requested) };
+        let new = if self.greedy { requested.saturating_add(3) } else if self.tight { requested } else { std::cmp::max(old.saturating_mul(2), requested) };
         with_ts(|ts| ts.events.push(TEv::Expand { serial: self.serial, add: additional, old, new }));
         self.relocate(new);
     }
@@ -322,6 +324,17 @@ impl MemBuilder for TrackWarm {
 }
 impl MemBuilderSizeable for TrackWarm {
     fn build_with_size(&mut self, element_layout: Layout, capacity: usize) -> TrackMem { TrackMem::build(element_layout, capacity, false) }
+}
+
+/// As `TrackTight`, but `expand(n)` grows by n + 3 elements: more than asked for, yet not geometric.
+#[derive(Clone, Copy, Default, Debug)]
+pub struct TrackGreedy;
+impl MemBuilder for TrackGreedy {
+    type Mem = TrackMem;
+    fn build(&mut self, element_layout: Layout) -> TrackMem { let mut m = TrackMem::build(element_layout, 0, false); m.greedy = true; m }
+}
+impl MemBuilderSizeable for TrackGreedy {
+    fn build_with_size(&mut self, element_layout: Layout, capacity: usize) -> TrackMem { let mut m = TrackMem::build(element_layout, capacity, false); m.greedy = true; m }
 }
 
 /// Fixed-capacity (N elements), instrumented backend: `TrackFixedMem` is deliberately a distinct type that
